@@ -78,9 +78,15 @@ pub fn generator(n: usize) -> Vec<u8> {
     g
 }
 
+/// Cached generators for degrees 0..=68.
+pub fn generator_cached(n: usize) -> &'static [u8] {
+    static G: std::sync::OnceLock<Vec<Vec<u8>>> = std::sync::OnceLock::new();
+    &G.get_or_init(|| (0..=68).map(generator).collect())[n]
+}
+
 /// Remainder of data(x) * x^n divided by g_n(x); n bytes, highest degree first.
 pub fn rs_remainder(data: &[u8], n: usize) -> Vec<u8> {
-    let g = generator(n);
+    let g = generator_cached(n);
     let mut rem = vec![0u8; n];
     for &d in data {
         let factor = d ^ rem[0];
